@@ -376,6 +376,27 @@ Section Proofs.
     apply handle_skip in E2. lia.
   Qed.
 
+  (* nothing of a datagram that is not authentic for the request reaches the
+     cookie pool: every stored cookie was handed over by a datagram that
+     carries the request's identifier and verifies under the S2C key *)
+  Theorem loop_cookies_authentic : forall q evs nr c,
+    In c (loop_cookies open q nr evs) ->
+    exists g cs, In (EvDgram g) evs /\ nts_ok q (g_payload g) /\
+                 nts_check open q (g_payload g) = Ok cs /\ In c cs.
+  Proof.
+    intros q evs. induction evs as [|ev rest IH]; intros nr c H; simpl in H; [contradiction|].
+    apply in_app_or in H. destruct H as [H|H].
+    - unfold dgram_cookies in H. destruct ev as [b|g]; [contradiction|].
+      destruct (q_nts q && flags_ok q g); [|contradiction].
+      destruct (front_check q g); [contradiction|].
+      destruct (ntp_decode (g_payload g)); [|contradiction].
+      destruct (nts_check open q (g_payload g)) as [cs|e| |] eqn:EC; try contradiction.
+      exists g, cs. split; [left; reflexivity|]. split; [|split; [exact EC|exact H]].
+      apply nts_check_ok. exists cs. exact EC.
+    - destruct (handle open q nr ev); try contradiction.
+      apply IH in H. destruct H as (g & cs & A & B). exists g, cs. split; [right; exact A|exact B].
+  Qed.
+
   (* ---- one call: MeasureClockOffsetIP ---- *)
   Definition from_exchange (c : config) (envs : list xenv) (off ts : Z) : Prop :=
     exists stk e i r, In e envs /\ recv_loop open (make_request c stk e) 0 0 (e_evs e) = LAccept i r /\
